@@ -2,7 +2,7 @@
    the value v, in order. Arguments must exist in the store and (for the simple equation) differ from the accumulator itself:
    an accumulator passed as its own argument is read as grown so far, which Model.append states exactly. *)
 From Coq Require Import ZArith List Bool.
-From Verif Require Import C11.Model C11.Proofs.
+From Verif Require Import C11.Model C11.Proofs C11.Proofs2.
 Import ListNotations.
 Open Scope nat_scope.
 
@@ -36,6 +36,33 @@ Theorem C11_wrap : forall st v, val_ok st v ->
   length st <= length st' /\ (forall b, b < length st -> chain_of st' b = chain_of st b).
 Proof. exact wrap_spec. Qed.
 Print Assumptions C11_wrap.
+
+(* every history of New/plain/nil/typed-nil/&Error{}/Append/Wrap operations, with NO side condition (the accumulator may be its
+   own argument, an aggregate may be appended to itself): every value handed out refers to an existing head - so the hypothesis
+   val_ok of the theorems above is met by whatever a program has built -, the k-th operation defines the k-th value, and every
+   node that records a cause shows exactly that cause's message (Wrap never detaches a cause from its text, Append never
+   rewrites a node) *)
+Theorem C11_every_history_well_formed : forall ops,
+  let s := fold_left step ops (([], []) : state) in
+  Inv s /\ length (snd s) = length ops /\
+  (forall i, val_ok (fst s) (vget (snd s) i)) /\
+  (forall v it c, In it (items (fst s) v) -> icause it = Some c -> imsg it = c).
+Proof. exact reachable_inv. Qed.
+Print Assumptions C11_every_history_well_formed.
+
+(* from any well-formed state: heads are never discarded by a history and the invariant persists *)
+Theorem C11_history_preserves : forall ops s, Inv s ->
+  let s' := fold_left step ops s in
+  Inv s' /\ length (fst s) <= length (fst s') /\ length (snd s') = length (snd s) + length ops.
+Proof. exact history_inv. Qed.
+Print Assumptions C11_history_preserves.
+
+(* non-vacuity: a history with a self-append and a wrapped plain error; its last value has a node with a cause *)
+Example C11_ex_history_with_cause :
+  let s := fold_left step [ONew 1; OPlain 7; OWrap 1; OAppend 0 [2; 0]; OAppend 3 [3]] (([], []) : state) in
+  map imsg (items (fst s) (vget (snd s) 4)) = [1; 7; 1; 7; 1; 7; 1; 7]%Z /\
+  map icause (items (fst s) (vget (snd s) 2)) = [Some 7%Z].
+Proof. split; reflexivity. Qed.
 
 (* regression: the two histories that failed before the repairs *)
 Example C11_ex_aggregate_then_more :
